@@ -64,8 +64,17 @@ class Shim:
             def __getattr__(s, n):
                 return getattr(s.c, n)
 
-        return types.SimpleNamespace(connect=lambda f: Con(sqlite3.connect(f)),
-                                     IntegrityError=sqlite3.IntegrityError, Error=sqlite3.Error)
+        class Mod:
+            """sqlite3 look-alike: everything is passed through, connections are wrapped"""
+
+            @staticmethod
+            def connect(*a, **k):
+                return Con(sqlite3.connect(*a, **k))
+
+            def __getattr__(s, n):
+                return getattr(sqlite3, n)
+
+        return Mod()
 
 
 def install(shim):
